@@ -46,6 +46,11 @@ func (v *regView) MaxLines() int { return v.lines() }
 func regKeys(regs *state.RegMap) []expr.Key {
 	keys := make([]expr.Key, 0, regs.Len())
 	for k := range regs.Values() {
+		// Instruction pointer is not counted into the height of the
+		// view as it's shown by the cursor in the code listing.
+		if k == expr.IPKey {
+			continue
+		}
 		keys = append(keys, k)
 	}
 
